@@ -1095,9 +1095,6 @@ func (self *LockManager) ProcessLockData(command *protocol.LockCommand, lock *Lo
 				break
 			}
 			command.Data = protocol.NewLockCommandDataFromOriginBytes(buf[index : index+4+dataLen])
-			if command.Data.CommandType != protocol.LOCK_DATA_COMMAND_TYPE_EXECUTE && command.CommandType != protocol.LOCK_DATA_COMMAND_TYPE_PIPELINE {
-				self.currentData = currentLockData
-			}
 			self.ProcessLockData(command, lock, requireRecover)
 			index += dataLen + 4
 		}
